@@ -760,6 +760,7 @@ def write_evidence(tier, seed, batch, wall, workers, n_viol, klines, det_info, s
             "runs_by_stratum": dict(batch.per_stratum),
             "worker_seconds_by_stratum": {k: round(v, 1) for k, v in pick("cpu_s:").items()},
             "runs_by_status": dict(batch.status),
+            "source_build_failures_not_judged": pick("source_failed:"),
             "runs_with_injected_fault_or_raising_op": batch.faulted_runs,
             "runs_fault_free": batch.runs - batch.faulted_runs,
             "runs_with_isolated_reference": batch.isolated_ref_runs,
